@@ -379,6 +379,8 @@ def essa_matcher(jr, h, f, findings):
     for fd in findings:
         m = fd.get("match", {})
         if fd.get("status") == "known" and m.get("engine") == "essa" and m.get("harness") == h["harness"] and m.get("msg") == f["msg"]:
+            if "chooses" in m and list(m["chooses"]) != list(f.get("chooses") or []):
+                continue
             return fd["id"]
     return None
 
@@ -492,10 +494,12 @@ def c19(prop, tier):
             Job("export", "./std/gkr", ["prelude_sym.go", "c19_export.go"], {"PKGNAME": "gkr"}),
             Job("chunks", "./constraint", ["prelude_sym.go", "c19_chunks.go"], {"PKGNAME": "constraint"})]
     for c in (["bn254"] if tier == "quick" else CURVES):
+        jobs.append(Job("sumcheck-" + c, "./internal/gkr/" + c, ["prelude_sym.go", "prelude_fr_sym.go", "c19_sumcheck.go"], {"PKGNAME": "gkr", "FRPKG": fr_pkg(c)}))
         jobs.append(Job("solve-hint-" + c, "./constraint/" + c, ["prelude_sym.go", "prelude_fr_sym.go", "c19_solvehint.go"], {"PKGNAME": "cs", "FRPKG": fr_pkg(c), "GKRCURVE": c}))
     return run_property(prop, tier, jobs,
-                        title="C19 (dependency and instance bookkeeping): TopologicalSort / InvertPermutation behind GkrInfo.Compile for every acyclic dependency structure with 1..4 wires and 0..2 symbolic inputs per wire; GkrInfo.Compile + assignment.Permute + Solution.Export and the whole API.Import/Series/Solve/Export flow on a fake parent API for 4 instances and 0..2 dependencies with symbolic (output instance, input instance) pairs: exported values are attributed to the original instances, a dependent input is the named output, sources are solved first, dependencies are listed by increasing input instance, the caller's slices are left alone; GkrCircuit.Chunks (every reading instance starts a chunk); the native solving hint GkrSolveHint on x, y -> x*y with 4 instances and 0..2 dependencies returns the direct evaluation for ALL field values (algebra model; pool memory arbitrary, worker pool sequential).",
+                        title="C19 (dependency and instance bookkeeping): TopologicalSort / InvertPermutation behind GkrInfo.Compile for every acyclic dependency structure with 1..4 wires and 0..2 symbolic inputs per wire; GkrInfo.Compile + assignment.Permute + Solution.Export and the whole API.Import/Series/Solve/Export flow on a fake parent API for 4 instances and 0..2 dependencies with symbolic (output instance, input instance) pairs: exported values are attributed to the original instances, a dependent input is the named output, sources are solved first, dependencies are listed by increasing input instance, the caller's slices are left alone; GkrCircuit.Chunks (every reading instance starts a chunk); the native solving hint GkrSolveHint on x, y -> x*y with 4 instances and 0..2 dependencies returns the direct evaluation for ALL field values (algebra model; pool memory arbitrary, worker pool sequential); the native sum-check prover/verifier on one multilinear claim with 0..2 variables and symbolic evaluations: no panic, completeness for all values (deterministic opaque transcript, InterpolateOnRange replaced by its specification).",
                         design_ref="DESIGN.md §3 C19",
+                        finding_matcher=essa_matcher,
                         assumptions=["acyclic input (stated as the transitive closure not reaching itself)"],
                         outside=["the in-circuit GKR verifier (sum-check with hash-derived challenges over a 254-bit field)", "the proving hint and the sum-check prover", "parallel execution of the solving hint's chunks (jobs run sequentially in the model)", "more than 4 instances / 2 dependencies / one dependent wire", "wire permutations other than the identity (API-built circuits are already sorted)"])
 
